@@ -130,3 +130,8 @@ package sub
 // ---- round 6: a stored subscription never shares memory with the caller's buffer ----
 //@ func (*context).subscribe
 //@   ensures len(c.subs) == len(old(c.subs)) + 1 ==> arrof(c.subs[len(c.subs)-1]) != arrof(old(topic)) && fresh_arr(c.subs[len(c.subs)-1])
+// ---- generated Info contracts (tools/gen_info_contracts.py) ----
+//@ func (*socket).Info
+//@   ensures result.Self == 33 && result.Peer == 32 && result.SelfName == "sub" && result.PeerName == "pub"
+//@
+// ---- end generated Info contracts ----
